@@ -6,7 +6,10 @@ import json, os, subprocess, sys
 V='/verif'
 REPO=os.environ.get('VERIF_REPO','/repo')
 rows=[]
-ids=sys.argv[1:] or sorted(d for d in os.listdir(V+'/seeded') if os.path.isdir(V+'/seeded/'+d))
+TABLE_ONLY='--table-only' in sys.argv
+args=[a for a in sys.argv[1:] if not a.startswith('--')]
+allids=sorted(d for d in os.listdir(V+'/seeded') if os.path.isdir(V+'/seeded/'+d))
+ids=[] if TABLE_ONLY else (args or allids)
 for sid in ids:
     prop=sid.split('-')[0]
     meta_p=f'{V}/seeded/{sid}/meta.json'
@@ -27,6 +30,17 @@ for sid in ids:
     json.dump(meta,open(meta_p,'w'),indent=1)
     rows.append((sid,'detected' if det else 'MISSED',det,meta))
     print(sid,'detected' if det else 'MISSED',det[:150],flush=True)
+# the table always lists every seed: the ones not re-run in this invocation with the result
+# recorded in their meta.json by the last run that did include them
+ran={r[0] for r in rows}
+for sid in allids:
+    if sid in ran: continue
+    meta=json.load(open(f'{V}/seeded/{sid}/meta.json'))
+    det=meta.get('detected_by','')
+    if not det: rows.append((sid,'NOT RUN','',meta))
+    elif det.startswith('NOT DETECTED'): rows.append((sid,'MISSED','',meta))
+    else: rows.append((sid,'detected',det,meta))
+rows.sort(key=lambda r:(r[0].split('-')[0],int(r[0].split('-')[1])))
 with open(V+'/seeded/RESULTS.md','w') as f:
     f.write('| seed | files | what the change does | result | failing obligations |\n|---|---|---|---|---|\n')
     for sid,res,det,meta in rows:
